@@ -3,6 +3,7 @@
 
 mod c05;
 mod c05b;
+mod c10;
 mod c16;
 mod c17;
 mod harness;
@@ -21,6 +22,7 @@ fn main() {
         let mut tasks = harness::Tasks::new(cli.tier, cli.seed);
         match cli.property.as_str() {
             "C05" => c05::run_group(&mut tasks, group),
+            "C10" => c10::run_group(&mut tasks, group),
             "C16" => c16::run_group(&mut tasks, group),
             "C17" => c17::run_group(&mut tasks, group),
             other => mc_core::machinery_error(&format!("mc-codec worker does not serve {other}")),
@@ -32,6 +34,7 @@ fn main() {
     let report = Report::new(&cli);
     let groups: Vec<String> = match cli.property.as_str() {
         "C05" => c05::GROUPS.iter().map(|s| s.to_string()).collect(),
+        "C10" => c10::GROUPS.iter().map(|s| s.to_string()).collect(),
         "C16" => c16::GROUPS.iter().map(|s| s.to_string()).collect(),
         "C17" => c17::GROUPS.iter().map(|s| s.to_string()).collect(),
         other => mc_core::machinery_error(&format!("mc-codec does not serve property {other}")),
@@ -51,6 +54,13 @@ fn main() {
             report.set_rule("one case = one byte string decoded as one type: no panic / abort, peak allocation <= 4 MiB + 64 x input length, and if decoding succeeds over a consumed prefix p then re-encoding the result gives exactly p; valid encodings decode to an equal value consuming everything");
             report.assume("values of types without PartialEq are compared through their encodings");
             report.assume("group elements, proofs and keys come from seeded fixtures");
+        }
+        "C10" => {
+            report.sample(json!({"type": "ILeb128(2)", "json": "-8192", "expected": "bytes 80 40 (the reference LEB128 encoding), back to \"-8192\""}));
+            report.sample(json!({"type": "Enum with 257 variants", "json": {"V256": [7]}, "expected": "two-byte tag 00 01 then 07"}));
+            report.set_technique("exhaustive enumeration of schema types of constructor depth <= 1 (thorough 2, quick: a spread of depth 2) over the full constructor alphabet (every size length, LEB128 constraints 1/2/10/37, arrays and byte arrays of 0/1/2/32, named / unnamed / empty fields, enums of 1, 2 and 257 variants, tagged enums with tags 0 and 255) with per-constructor boundary value sets judged by an independently written encoder of the contract-side layout; non-conforming values per constructor; all byte strings of length <= 2 and the byte neighbourhood of valid encodings under every type; all module schemas of versions 0-3 with 0-2 contracts x 0-2 functions in prefixed, unprefixed and base64 form");
+            report.set_rule("one case = one (type, JSON) pair converted both ways, one non-conforming JSON, one (type, bytes) pair, or one schema round trip");
+            report.assume("nesting beyond depth 32 and collections of zero-width elements with 32/64-bit length prefixes are outside the claim (observations O1, O2): the generator does not build them");
         }
         "C16" => {
             report.sample(json!({"type": "Amount", "text": "18446744073709.551616", "expected": "rejected (one micro CCD above the largest amount)"}));
